@@ -16,6 +16,7 @@ import (
 	"runtime"
 	"strings"
 	"sync"
+	"sync/atomic"
 	"testing"
 	"time"
 	"unicode"
@@ -938,7 +939,15 @@ func (n *vc17SockNode) Exchange(ctx context.Context, req *dns.Msg) (resp *dns.Ms
 	q := req.Question[0]
 	n.env.record(vc17Call{who: n.name, main: n.main, idx: n.idx, probe: vc17IsProbeName(q.Name), qname: q.Name, qtype: q.Qtype})
 
-	return n.UpstreamPlain.Exchange(ctx, req)
+	start := time.Now()
+	resp, nw, err = n.UpstreamPlain.Exchange(ctx, req)
+	if n.mode != vc17SockStall && time.Since(start) > vc17Timeout/2 {
+		// This server answers or refuses immediately; only an overloaded
+		// machine makes such an exchange slow.
+		n.env.slowHealthy.Store(true)
+	}
+
+	return resp, nw, err
 }
 
 // setMode switches the server; it returns an error if the port could not be
@@ -999,13 +1008,27 @@ func (n *vc17SockNode) dropConns() {
 	n.srv.dropConns()
 }
 
+// vc17SlowOp is how long one operation may take before the code under test
+// counts as slow (ten times the deadline of the callers' contexts).  A slow
+// operation is never a verdict by itself; its outcome is judged as usual.
+const vc17SlowOp = 10 * vc17Timeout
+
+// vc17SlowCode is set, for the rest of the process, once the code under test
+// was seen to be slow with upstreams that never answer: later cases then use
+// closed servers instead, so that the run ends soon.  vc17SlowCorrect counts
+// slow operations whose outcome was right.
+var (
+	vc17SlowCode    atomic.Bool
+	vc17SlowCorrect atomic.Int32
+)
+
 func TestVerifC17Sockets(t *testing.T) {
 	st := vstat.New("C17", "forward.sockets",
 		"rapid histories (1-2 mains, 0-2 fallbacks, each a real UpstreamPlain (any/udp/tcp) built by NewHandler to its own loopback UDP+TCP server; construction with HealthcheckInitDuration 0 or >0 against servers that are already up/down/answering wrongly; ops: query, burst of 2-4 simultaneous queries, health-check round, server drops its established TCP connections but stays up, query with a cancelled or expired context, health-check round with 1-3 queries in flight, server switch among up / up with truncated UDP replies / truncated UDP replies with the TCP port refusing / accepts but never answers / SERVFAIL / sockets closed / wrong-ID / other-name / other-type replies, clock step around the backoff) against the same reference state machine; non-trivial = a health-check round finds a previously failed main up again, distinct by the whole history",
 		"recovered-after-backoff", "blocked-in-backoff-while-up", "neterr-fallback-ok", "neterr-fallback-fails",
 		"all-down-query-to-fallback", "plainerr-no-fallback", "no-fallbacks-refresh-with-down-main",
 		"init-probe-failed-no-fallbacks", "init-probe-failed-with-fallbacks",
-		"query-after-established-conns-dropped-with-2+-idle", "query-to-stalling-main", "query-truncated-then-tcp-refused",
+		"query-after-established-conns-dropped-with-2+-idle", "query-to-udp-silent-main", "query-to-tcp-stalling-main", "health-check-with-udp-silent-main", "query-truncated-then-tcp-refused",
 		"query-truncated-then-tcp", "query-to-main-with-timeout-zero", "query-with-dead-context", "queries-during-health-check",
 		"query-before-first-health-check", "refresh-reports-all-mains-down")
 	st.Finish(t)
@@ -1084,13 +1107,68 @@ func TestVerifC17Sockets(t *testing.T) {
 		e.hist.WriteString(" | ")
 
 		opStart := time.Now()
+		constructing := true
+		caseCut := false
 		fail := func(format string, args ...any) {
 			msg := fmt.Sprintf(format, args...)
-			if took := time.Since(opStart); took > vc17Timeout/2 {
-				fmt.Println("VERIF-INCONCLUSIVE: an operation took " + took.String() + "; " + msg)
+			took := time.Since(opStart)
+			switch {
+			case e.slowHealthy.Load(), constructing && took > vc17Timeout/2:
+				// An upstream that answers at once was slow: the machine is
+				// overloaded and may have caused the wrong outcome.
+				fmt.Println("VERIF-INCONCLUSIVE: an exchange with a responsive upstream took long (operation: " + took.String() + "); " + msg)
+			case took > vc17SlowOp:
+				// The outcome is wrong AND the code was slow with an upstream
+				// that never answers.  The outcome is the verdict.
+				vc17SlowCode.Store(true)
+				msg = fmt.Sprintf("%s\n(the operation took %s; for the rest of this process silent upstreams are replaced by closed ones, so a re-run of this case in the same process may pass and be called flaky: the history above is the failing case)", msg, took)
 			}
 
 			t.Fatalf("%s", msg)
+		}
+
+		// beginOp / endOp bracket every operation on the real code.
+		beginOp := func() bool {
+			if caseCut {
+				return false
+			}
+
+			opStart = time.Now()
+			e.slowHealthy.Store(false)
+
+			return true
+		}
+
+		endOp := func() {
+			if time.Since(opStart) > vc17SlowOp {
+				// Right outcome, but slow: do not spend more of the run on it.
+				caseCut = true
+				if vc17SlowCorrect.Add(1) >= 2 {
+					vc17SlowCode.Store(true)
+				}
+			}
+		}
+
+		anyStall := func() bool {
+			for _, n := range nodes {
+				if n.mode == vc17SockStall {
+					return true
+				}
+			}
+
+			return false
+		}
+
+		// opCtx is the caller's context of an operation.  While some upstream
+		// never answers it always carries the deadline D = vc17Timeout, far
+		// above that upstream's time-out T = vc17StallTimeout, as the
+		// contexts of the real callers do; otherwise it is drawn.
+		opCtx := func() (c context.Context, cancel context.CancelFunc) {
+			if anyStall() || rapid.Bool().Draw(t, "ctxWithDeadline") {
+				return context.WithTimeout(ctx, vc17Timeout)
+			}
+
+			return ctx, func() {}
 		}
 
 		construct := func() {
@@ -1135,8 +1213,13 @@ func TestVerifC17Sockets(t *testing.T) {
 			e.checkActiveState(fail, "after construction without an initial health check")
 		}
 
+		constructing = false
 		discarded := ""
 		setMode := func(n *vc17SockNode, m vc17SockMode) bool {
+			if m == vc17SockStall && vc17SlowCode.Load() {
+				m = vc17SockClosed
+			}
+
 			fmt.Fprintf(&e.hist, "S%s=%s ", n.name, vc17SockModeNames[m])
 			if err := n.setMode(m); err != nil {
 				discarded = "rebind-failed-discarded"
@@ -1164,33 +1247,47 @@ func TestVerifC17Sockets(t *testing.T) {
 				return false
 			}
 
-			opStart = time.Now()
-			if err := e.refresh(ctx, fail); err != nil {
+			if !beginOp() {
+				return false
+			}
+
+			for _, n := range nodes {
+				if n.main && n.mode == vc17SockStall && n.nw != NetworkTCP && e.active[n.idx] {
+					e.class("health-check-with-udp-silent-main")
+				}
+			}
+
+			rctx, cancel := opCtx()
+			defer cancel()
+			if err := e.refresh(rctx, fail); err != nil {
 				discarded = "clock-ambiguous-discarded"
 
 				return false
 			}
 
-			return true
+			endOp()
+
+			return !caseCut
 		}
 
 		doQuery := func() {
-			opStart = time.Now()
-			name := rapid.SampledFrom(vc17QNames).Draw(t, "qname")
-			qt := rapid.SampledFrom(vc17QTypes).Draw(t, "qtype")
-			qctx := ctx
-			if rapid.Bool().Draw(t, "ctxWithDeadline") {
-				// Like the real callers: a context with a (distant) deadline.
-				var cancel context.CancelFunc
-				qctx, cancel = context.WithTimeout(ctx, vc17Timeout)
-				defer cancel()
+			if !beginOp() {
+				return
 			}
 
+			name := rapid.SampledFrom(vc17QNames).Draw(t, "qname")
+			qt := rapid.SampledFrom(vc17QTypes).Draw(t, "qtype")
+			qctx, cancel := opCtx()
+			defer cancel()
 			e.query(qctx, fail, name, qt, rapid.Uint16().Draw(t, "id"), rapid.Bool().Draw(t, "edns"))
+			endOp()
 		}
 
 		doDeadCtxQuery := func() {
-			opStart = time.Now()
+			if !beginOp() {
+				return
+			}
+
 			var qctx context.Context
 			var cancel context.CancelFunc
 			if rapid.Bool().Draw(t, "expiredNotCancelled") {
@@ -1205,31 +1302,38 @@ func TestVerifC17Sockets(t *testing.T) {
 		}
 
 		doConcurrent := func() bool {
-			if !settle() {
+			if !settle() || !beginOp() {
 				return false
 			}
 
-			opStart = time.Now()
 			k := rapid.IntRange(1, 3).Draw(t, "during")
 			ids := make([]uint16, k)
 			for i := range ids {
 				ids[i] = rapid.Uint16().Draw(t, "id")
 			}
 
-			if err := e.concurrent(ctx, fail, rapid.SampledFrom(vc17QTypes).Draw(t, "qtype"), ids); err != nil {
+			cctx, cancel := opCtx()
+			defer cancel()
+			if err := e.concurrent(cctx, fail, rapid.SampledFrom(vc17QTypes).Draw(t, "qtype"), ids); err != nil {
 				discarded = "clock-ambiguous-discarded"
 
 				return false
 			}
 
-			return true
+			endOp()
+
+			return !caseCut
 		}
 
 		e.onMainAsked = func(idx int) {
 			n := nodes[idx]
 			switch {
+			case n.mode == vc17SockStall && n.nw != NetworkTCP:
+				// Socket bound, requests read and discarded, never answered.
+				e.class("query-to-udp-silent-main")
 			case n.mode == vc17SockStall:
-				e.class("query-to-stalling-main")
+				// Connection accepted, request read, never answered.
+				e.class("query-to-tcp-stalling-main")
 			case n.mode == vc17SockTCNoTCP && n.nw != NetworkUDP:
 				e.class("query-truncated-then-tcp-refused")
 			case n.mode == vc17SockUpTC && n.nw == NetworkAny:
@@ -1257,7 +1361,10 @@ func TestVerifC17Sockets(t *testing.T) {
 		}
 
 		doBurst := func() {
-			opStart = time.Now()
+			if !beginOp() {
+				return
+			}
+
 			k := rapid.IntRange(2, 4).Draw(t, "burst")
 			ids := make([]uint16, k)
 			for i := range ids {
@@ -1268,7 +1375,10 @@ func TestVerifC17Sockets(t *testing.T) {
 				n.srv.setPairing(true)
 			}
 
-			e.burst(ctx, fail, rapid.SampledFrom(vc17QTypes).Draw(t, "qtype"), ids)
+			bctx, cancel := opCtx()
+			defer cancel()
+			e.burst(bctx, fail, rapid.SampledFrom(vc17QTypes).Draw(t, "qtype"), ids)
+			endOp()
 			for _, n := range nodes {
 				n.srv.setPairing(false)
 				if n.idleTCP() >= 2 {
@@ -1290,6 +1400,10 @@ func TestVerifC17Sockets(t *testing.T) {
 		nOps := rapid.IntRange(3, 14).Draw(t, "nOps")
 	ops:
 		for range nOps {
+			if caseCut {
+				break
+			}
+
 			switch rapid.IntRange(0, 17).Draw(t, "op") {
 			case 0, 1, 2:
 				doQuery()
@@ -1371,7 +1485,7 @@ func TestVerifC17Sockets(t *testing.T) {
 					break ops
 				}
 
-				if m == vc17SockClosed {
+				if m == vc17SockClosed || m == vc17SockStall {
 					// An outage that no health check has noticed yet.
 					doQuery()
 				}
@@ -1401,6 +1515,10 @@ func TestVerifC17Sockets(t *testing.T) {
 		if discarded != "" {
 			st.Class(discarded)
 			t.Skip(discarded)
+		}
+
+		if caseCut {
+			e.class("slow-code-case-cut")
 		}
 
 		nt := ""
